@@ -193,7 +193,7 @@ func opPP(r *rand.Rand, n int, tier string) {
 				if k == nd-1 && r.Intn(2) == 0 {
 					j += "last line without eol"
 				}
-				if k == nd-1 && r.Intn(4) == 0 {
+				if k == nd-1 && r.Intn(2) == 0 {
 					j = "exit status 2" // exactly one unterminated line after the last dump
 				}
 				if k == 0 && r.Intn(3) == 0 {
